@@ -34,6 +34,15 @@ func confinementLayout(g *gen.G) *layout {
 	if g.P(0.7) {
 		extra = map[string]any{"$parent": g.Pick([]string{"../out", "../other/o", "sub/s", "sub/../a", "/w/out", "../out.*", "a", "sub/../../out", "l", "d/s", "d/o"})}
 	}
+	if g.P(0.15) {
+		// a $parent name with two matches: a real layer and a link (another extension) that
+		// leaves the root - to an existing decoy, to nothing, or to a directory. Whether the
+		// outside target EXISTS must not matter either.
+		file(rootDir+"/p.yaml", "p", nil)
+		file("/w/dec.json", "DECOY-json", nil) // its own stem: one file per layer name
+		l.Fs[rootDir+"/p.json"] = fsx.Entry{Kind: "symlink", Target: g.Pick([]string{"../dec.json", "../nothere.json", "../other", "/w/dec.json"})}
+		extra = map[string]any{"$parent": g.Pick([]string{"p", "p", "p.*", "*"})}
+	}
 	file(rootDir+"/a.b.yaml", "a.b", extra)
 	if g.P(0.6) {
 		l.Fs[rootDir+"/l.yaml"] = fsx.Entry{Kind: "symlink", Target: g.Pick([]string{"a.yaml", "sub/s.yaml", "../out.yaml", "/w/out.yaml", "/w/root/a.yaml", "sub/../../out.yaml", "m.yaml", "a.b.yaml", "../out.b.yaml"})}
